@@ -963,6 +963,42 @@ example : (match dAddSAll cfg0 ({}, {}, {}) [(evB', 2), (evA', 0), (evC', 0), (e
     | .ok (_, s, st) => st.cc == some [0, 0, 0, 1] && st.dc == some [0, 0, 0, 1] && s.conflictedCount == 1 && s.documentCount == 1
     | _ => false) = true := by decide
 
+/-- **`HistorySinceVersion` returns the published bytes of the sorted event list, and never fails on a listed DID**: for
+    every sequence of Adds (failed transactions included) and every DID with at least one event, every version `v ≥ 0` up
+    to the last one yields `.ok` with, per listed event from index `v` on, the bytes published by that event, `Created` =
+    the first event's signing time, `Updated` = the event's, numbered from `v`; a negative version is refused before any
+    read. (The chain-level `history_is_the_sorted_event_list` says which events these are, in every arrival order.) -/
+theorem history_reads_published_bytes (cfg : Cfg) (U : List Event) (hU : Accepted U) (l : List (Event × Nat))
+    (hl : ∀ p ∈ l, p.1 ∈ U) (b : Blob) (s : Store) (h : dAddAll cfg ({}, {}) l = .ok (b, s)) (id : String)
+    (e0 : Event) (rest : List Event) (hev : (s.get id).events = e0 :: rest) :
+    (∀ v : Nat, v ≤ rest.length →
+      historySinceInt b (s.get id) (v : Int) = .ok (rawList e0.sigTime v ((e0 :: rest).drop v))) ∧
+    (∀ z : Int, z < 0 → historySinceInt b (s.get id) z = .err "other:negative version") := by
+  have hd := dAddAll_dinv cfg U hU l ({}, {}) (b, s) hl (dinv_empty cfg U) h
+  refine ⟨?_, ?_⟩
+  · intro v hv
+    unfold historySinceInt
+    have hneg : ¬ ((v : Int) < 0) := by omega
+    simp only [hneg, if_false, hev, Int.toNat_natCast, List.length_cons]
+    have hle : ¬ (v > rest.length + 1 - 1) := by omega
+    simp only [hle, if_false]
+    apply historyRawFrom_ok
+    intro x hx
+    have hx' : x ∈ (s.get id).events := by rw [hev]; exact List.mem_of_mem_drop hx
+    exact (hd.ev id x hx').2
+  · intro z hz
+    unfold historySinceInt
+    simp only [hz, if_true]
+
+set_option maxRecDepth 200000 in
+example : (match dAddAll cfg0 ({}, {}) [(evB', 2), (evA', 0), (evC', 0), (evB', 0)] with
+    | .ok (b, s) =>
+      (match historySinceInt b (s.get "did:nuts:x") 1 with
+        | .ok h => h.map (·.1) == [(docOf "sB").render, (docOf "sA").render] && h.map (·.2.2.2) == [1, 2]
+        | _ => false) &&
+      (match historySinceInt b (s.get "did:nuts:x") (-1) with | .err x => x == "other:negative version" | _ => false)
+    | _ => false) = true := by decide
+
 /-- **The bytes `Resolve` hands out depend neither on the arrival order nor on which Adds failed.** Two stores receive
     arrival sequences in which any Add may fail in its first or in its second write transaction (and be re-delivered or
     not); if the sets of events whose Add ran completely are the same, then for every DID and every resolve metadata both
